@@ -19,8 +19,12 @@ class Malformed(Exception):
 
 
 class Unspecified(Exception):
-    """the input is outside what the property pins down (a side of a hunk
-    receives more lines than its header announces)"""
+    """the input is outside what the property pins down: a side of a hunk
+    received more lines than its header announces and the hunk sequence was
+    nevertheless *accepted* (which geometry such a hunk has is not stated).
+    What stays pinned after an overrun: a hunk one of whose sides is still
+    short when another header or the end of the input arrives "ends early" and
+    must be reported at that line."""
 
 
 class Side(object):
@@ -53,6 +57,7 @@ class State(object):
     def __init__(self, ignore_garbage=False):
         self.ignore_garbage = ignore_garbage
         self.hunks = []
+        self.overrun = False
         self.inserts = 0
         self.deletes = 0
         self.orig = None
@@ -65,8 +70,10 @@ class State(object):
         return self.orig is not None
 
 
-def step(st, line, line_num):
-    """consume one line; returns False when parsing stops before this line"""
+def step(st, line, line_num, strict=True):
+    """consume one line; returns False when parsing stops before this line
+    (strict: an overrun raises Unspecified at once -- the single-step view; otherwise it is remembered in st.overrun
+    and the caller decides at the end)"""
     m = HEADER.fullmatch(line) if line.startswith(b'@@') else None
     if st.in_hunk():
         if m is not None:
@@ -87,7 +94,9 @@ def step(st, line, line_num):
         else:
             raise Malformed(line, line_num)
         if st.orig.i > st.orig.num or st.mod.i > st.mod.num:
-            raise Unspecified()
+            if strict:
+                raise Unspecified()
+            st.overrun = True
     else:
         if m is None:
             if st.ignore_garbage:
@@ -118,6 +127,8 @@ def step(st, line, line_num):
 def finish(st, lines):
     if st.in_hunk():
         raise Malformed(lines[-1], len(lines), premature=True)
+    if st.overrun:
+        raise Unspecified()
     return {
         'hunks': st.hunks,
         'num_processed_lines': st.processed,
@@ -129,6 +140,6 @@ def finish(st, lines):
 def hunks(lines, ignore_garbage=False):
     st = State(ignore_garbage)
     for n, line in enumerate(lines, 1):
-        if not step(st, line, n):
+        if not step(st, line, n, strict=False):
             break
     return finish(st, lines)
